@@ -72,3 +72,24 @@ Proof.
   - (* '-' : deletion *)
     repeat (first [rewrite tail_eq | vp_step]); reflexivity.
 Qed.
+
+(* ------------------------------------------------------------------ the whole conversion after the Location parsing *)
+Lemma code_vep_convert_is_model_l : forall g t chrom e,
+  py_vep_convert g t chrom e = convert true g t chrom e.
+Proof.
+  intros g t chrom e.
+  unfold py_vep_convert, convert, bind. cbv zeta.
+  destruct (gene_seq g chrom) as [sq| | | |]; try reflexivity.
+  destruct (g2gene g (v_a e - 1)) as [as0| | | |]; try reflexivity.
+  destruct (g2gene g (v_b e - 1)) as [ae0| | | |]; try reflexivity.
+  destruct (g_strand g =? 1) eqn:S1;
+    match goal with |- context [g2gene g ?x] => destruct (g2gene g x) as [ts| | | |]; try reflexivity end;
+    match goal with |- context [g2gene g ?x] => destruct (g2gene g x) as [te0| | | |]; try reflexivity end;
+    destruct (g_strand g =? -1) eqn:S2; cbv zeta;
+    match goal with |- context [convert_core true sq ?a ?b ?c _] =>
+      pose proof (code_vep_convert_core_is_model_l (g_strand g) sq a b c (v_allele e)) as A end;
+    unfold py_vep_convert_core in A; rewrite S2 in A;
+    match goal with |- context [if ?c then ErrStart else _] => destruct c; [reflexivity|] end;
+    match goal with |- context [if ?c then ErrStop else _] => destruct c; [reflexivity|] end;
+    refine (eq_trans _ A); reflexivity.
+Qed.
